@@ -261,7 +261,37 @@ func TestC13_FixedShapes(t *testing.T) {
 			}
 		}
 	}
-	c.ExhaustivePart("20 fault forms x 11 preceding multi-line tokens x 4 leads")
+	// the offending token is the end of the input itself: a construct that is never closed.
+	// Its line is the line of the position just past the last byte (after a final line
+	// break that is the next line).
+	opens := []string{"@if(true)open", "@each(x in [1])open", "@for(i = 0; i < 1; i++)open", "{{ 1 +", "@if(true", "@insert(\"x\")open", "@if(false)a@elseif(true)b@else c", "{{ [1, 2"}
+	endings := []string{"", "\n", "\n\n", " \n", "\r\n", "\n \t", "x\ny\n"}
+	for _, b := range befores {
+		for _, op := range opens {
+			for _, e := range endings {
+				idx++
+				if !harness.Mine(idx) {
+					continue
+				}
+				src := b.src + op + e
+				if strings.HasPrefix(op, "{{") || op == "@if(true" {
+					// inside code the trailing text is code: keep it blank
+					if strings.Contains(e, "x") {
+						continue
+					}
+				}
+				cs := lineCase{Src: src, WantLine: 1 + strings.Count(src, "\n"), Fault: "end-of-input"}
+				c.CaseEnum(cs.WantLine > 1, "before:"+b.name, "fault:end-of-input")
+				if idx%97 == 0 {
+					c.Sample(map[string]any{"src": src, "want_line": cs.WantLine})
+				}
+				if f := c13String(c, cs); f != "" {
+					c.Fail(t, kindOf(f), cs, cs.WantLine, f, f)
+				}
+			}
+		}
+	}
+	c.ExhaustivePart("fault forms x 11 preceding multi-line tokens x 4 leads; 8 unclosed constructs x 11 x 7 endings")
 }
 
 // ---------------------------------------------------------------- trees
